@@ -334,6 +334,85 @@ def check_roots(eng, run):
         run.ob("C17.root", f"{f.short}:no-explicit-raise", not bad)
 
 
+def check_receiver_escape(eng, run):
+    """a malformed request is *thrown into the handler*: nothing input-dependent leaves the request receivers or the per-client
+    task of the stream server (an exception leaving that task cancels the task group: every client is disconnected)"""
+    from sa.analyses.escape import EscapeSummaries
+    from rules.c06 import CONFIG_TOKENS
+    summ = EscapeSummaries(eng)
+    n = 0
+    for q, allowed in (("lowlevel.api_async.servers.stream:_RequestReceiver.next", {"StopAsyncIteration"}),
+                       ("lowlevel.api_async.servers.stream:_BufferedRequestReceiver.next", {"StopAsyncIteration"}),
+                       ("lowlevel.api_async.servers.stream:AsyncStreamServer.__client_coroutine", set())):
+        fn = eng.db.fn(q)
+        toks = summ.escapes(fn, fn.cls)
+        bad = sorted(t for t in toks if t not in allowed and t not in CONFIG_TOKENS)
+        n += 1
+        for t in bad[:2]:
+            tr = summ.witness.get((fn.qualname, fn.cls.qualname), {}).get(t, ())
+            run.finding("C17.root", fn, _stmt_at(fn, tr[-1]) if tr else fn.node, f"`{t.split('.')[-1]}` raised while parsing one client's data can leave {fn.short} instead of being handed to that client's "
+                        "handler as a ThrowAction: it ends the client task with an error and the server's task group is cancelled", tr)
+        run.ob("C17.root", f"{fn.short}:no-input-dependent-escape", not bad, escaping=sorted(t.split(".")[-1] for t in toks))
+    run.floor("C17.root receivers / stream client task", n, 3)
+
+
+def check_progress(eng, run):
+    """UDP: every run of the per-client handler task consumes at least one queued datagram, on every exit (also when the handler's
+    generator ends before its first yield): otherwise the task-done hook re-spawns the handler for the same datagram for ever"""
+    from sa.analyses.must import exits_without
+    s2 = eng.db.cls("lowlevel.api_async.servers.datagram.AsyncDatagramServer")
+    fn = s2.methods.get("__client_coroutine_inner_loop")
+    if fn is None:
+        raise AnalysisError("anchor vanished: AsyncDatagramServer.__client_coroutine_inner_loop")
+
+    def pops(node):
+        return isinstance(node, ast.Call) and isinstance(node.func, ast.Attribute) and node.func.attr in ("pop_datagram_no_wait", "pop_datagram")
+
+    bad, sites = exits_without(eng, fn, pops)
+    if sites == 0:
+        raise AnalysisError("anchor vanished: datagram pop in __client_coroutine_inner_loop")
+    for label, tr in bad[:1]:
+        run.finding("C17.root", fn, _stmt_at(fn, tr[-1]) if tr else fn.node, f"exit {label} of the per-client handler task without having taken a datagram off the client's queue: "
+                    "the pending datagram re-spawns the handler at once, for ever (a handler failing before its first yield floods the server)", tr)
+    run.ob("C17.root", f"{fn.short}:consumes-a-datagram-on-every-exit", not bad, pop_sites=sites)
+
+
+def check_close_raises(eng, run):
+    """closing a connection the peer has reset must not raise: socket-level shutdown calls in close paths sit in a try whose arms
+    catch every OSError (ENOTCONN is a plain OSError, not a ConnectionError) - aclose_forcefully() runs in the per-client task"""
+    n = 0
+    for fn in eng.db.all_functions():
+        if isinstance(fn.node, ast.Lambda) or not fn.module.name.startswith(("easynetwork.lowlevel.api_async.backend._asyncio", "easynetwork.lowlevel.api_sync.transports.socket")):
+            continue
+        if fn.name not in ("aclose", "close", "_close_stream_socket"):
+            continue
+        pm = {}
+        for p_ in ast.walk(fn.node):
+            for c_ in ast.iter_child_nodes(p_):
+                pm[c_] = p_
+        for c in own_nodes(fn.node):
+            if not (isinstance(c, ast.Call) and isinstance(c.func, ast.Attribute) and c.func.attr in ("write_eof", "shutdown")):
+                continue
+            recv = (dotted(c.func.value) or "").lower()
+            if "bio" in recv or "executor" in recv or "server" in recv:
+                continue
+            n += 1
+            ok = False
+            x = c
+            while x in pm and x is not fn.node:
+                p_ = pm[x]
+                if isinstance(p_, ast.Try) and any(x is b for b in p_.body):
+                    for h in p_.handlers:
+                        if eng.lattice.match(eng.lattice.handler_classes(fn, h.type), "OSError", ("OSError", "Exception")) == "must":
+                            ok = True
+                x = p_
+            if not ok:
+                run.finding("C17.disc", fn, _stmt_at(fn, c.lineno), f"`{ast.unparse(c)}` in a close path is not protected by an arm catching every OSError: shutting down a connection the peer reset "
+                            "raises ENOTCONN, which escapes the forceful close in the per-client task and stops the whole server")
+            run.ob("C17.disc", f"{fn.short}:{ast.unparse(c)[:40]}:OSError-contained", ok)
+    run.floor("C17.disc socket-level shutdown calls in close paths", n, 2)
+
+
 def run(eng, run):
     run.not_decided += NOT_DECIDED
     run.assumptions += ["task-group semantics: an exception that does not leave a task does not cancel its siblings",
@@ -344,6 +423,9 @@ def run(eng, run):
     check_setup(eng, run, reg)
     check_failable_lookups(eng, run)
     check_roots(eng, run)
+    check_receiver_escape(eng, run)
+    check_progress(eng, run)
+    check_close_raises(eng, run)
 
 
 # ---------------------------------------------------------------------------------------------- self-test corpus
@@ -403,4 +485,31 @@ BENIGN = [
             lambda fn: replace_stmt(fn, stmt_is("if not isinstance(exc, Exception)"), "fatal = not isinstance(exc, Exception)\nif not isinstance(exc, Exception):\n    raise"),
             why="extra local computed before the test"),
     Variant("handler-rename-client", _HD, lambda fn: rename_local(fn, "request_handler_generator", "gen"), why="local renamed"),
+]
+
+_BRRN = "lowlevel.api_async.servers.stream:_BufferedRequestReceiver.next"
+_ILD = "lowlevel.api_async.servers.datagram:AsyncDatagramServer.__client_coroutine_inner_loop"
+_ADA = "lowlevel.api_async.backend._asyncio.stream.socket:AsyncioTransportStreamSocketAdapter.aclose"
+
+
+def _fast_path_outside_the_try(fn):
+    fn.body[0:0] = ast.parse(
+        "consumer = self.consumer\ntry:\n    request = consumer.next(None)\nexcept StopIteration:\n    pass\nelse:\n"
+        "    await self.__backend.cancel_shielded_coro_yield()\n    return SendAction(request)").body
+
+
+def _pop_after_first_yield(fn):
+    t = next(n for n in ast.walk(fn) if isinstance(n, ast.Try))
+    pop = next(s for s in t.body if "pop_datagram_no_wait" in ast.unparse(s))
+    t.body.remove(pop)
+    t.orelse.insert(0, pop)
+
+
+MUTANTS += [
+    Variant("buffered-receiver-fast-path-outside-the-conversion", _BRRN, _fast_path_outside_the_try, "C17.root",
+            why="a malformed request buffered behind a valid one kills the client task and with it the server (seed C17-4)"),
+    Variant("udp-datagram-popped-after-the-first-yield", _ILD, _pop_after_first_yield, "C17.root",
+            why="a handler that fails before its first yield is re-spawned for ever on the same datagram (seed C17-5)"),
+    Variant("adapter-close-catches-connection-errors-only", _ADA, lambda fn: set_handler_type(fn, "OSError", "ConnectionError"), "C17.disc",
+            why="ENOTCONN from shutdown() on a reset connection escapes the forceful close (seed C17-6)"),
 ]
